@@ -16,6 +16,8 @@ Lemma fact_defers : stop_sending_defers = true. Proof. reflexivity. Qed.
 Lemma fact_saturates : reset_saturates = true. Proof. reflexivity. Qed.
 Lemma fact_poll_send_guard : poll_send_guard = true. Proof. reflexivity. Qed.
 Lemma fact_finish_drains : poll_finish_drains = true. Proof. reflexivity. Qed.
+Lemma fact_gives_up : poll_ready_gives_up_on_error = true. Proof. reflexivity. Qed.
+Lemma fact_reset_memo : poll_data_reset_memo = true. Proof. reflexivity. Qed.
 Lemma fact_sites : forall site, In site [site_conn_close; site_conn_opener; site_conn_poll_accept_bidi; site_conn_poll_accept_recv;
     site_conn_poll_open_bidi; site_conn_poll_open_send; site_opener_clone; site_opener_close;
     site_opener_poll_open_bidi; site_opener_poll_open_send] -> assoc site site_converts = Some true.
@@ -140,24 +142,33 @@ Definition poll_not_panic {E A} (p : poll (res E A)) : Prop := match p with Read
 Lemma of_conv_write_not_panic {A} e : not_panic (@of_conv A (convert_write_error e)).
 Proof. rewrite convert_write_error_spec. exact I. Qed.
 
+(* a poll that reports an error (for poll_ready: Quinn refused a write - the rest of the buffer is given up) *)
+Definition poll_failed {A} (p : poll (sres A)) : Prop := match p with Ready (Err _) => True | _ => False end.
+
 (* every oracle: whatever Quinn answers, what it has been handed plus what is still waiting is unchanged,
-   in order; "ready" means nothing is waiting *)
+   in order - until Quinn fails a write: then the rest of the buffer is given up (`writing = None`) and what Quinn
+   took before stays; "ready" means nothing is waiting *)
 Lemma write_loop_exact o : forall q data r q' w' o',
   write_loop o q data = (r, q', w', o') ->
-  qs_log q' ++ view_opt w' = qs_log q ++ wb_view data /\
+  (~ poll_failed r -> qs_log q' ++ view_opt w' = qs_log q ++ wb_view data) /\
+  (exists rest, qs_log q' ++ view_opt w' ++ rest = qs_log q ++ wb_view data) /\
+  (poll_failed r -> w' = None) /\
   qs_id q' = qs_id q /\ qs_finished q' = qs_finished q /\ qs_reset q' = qs_reset q /\
   poll_not_panic r /\
   (r = Ready (Ok tt) -> w' = None) /\
-  (r <> Ready (Ok tt) -> exists d, w' = Some d /\ wb_has_remaining d = true) /\
+  (r = Pending -> exists d, w' = Some d /\ wb_has_remaining d = true) /\
   (exists used, o = used ++ o').
 Proof.
   induction o as [|a o IH]; intros q data r q' w' o' H.
   - cbn [write_loop] in H. destruct (wb_has_remaining data) eqn:Hrem.
-    + inversion H; subst. cbn [view_opt]. repeat split; auto; try discriminate.
+    + inversion H; subst. cbn [view_opt poll_failed]. repeat split; auto; try discriminate; try contradiction.
+      * exists []. rewrite app_nil_r. reflexivity.
       * intros _. exists data. auto.
       * exists []. reflexivity.
-    + rewrite fact_clears in H. inversion H; subst. cbn [view_opt]. rewrite (has_remaining_false _ Hrem).
-      repeat split; auto; try (intros C; congruence). exists []. reflexivity.
+    + rewrite fact_clears in H. inversion H; subst. cbn [view_opt poll_failed]. rewrite (has_remaining_false _ Hrem).
+      repeat split; auto; try (intros C; congruence); try contradiction.
+      * exists []. reflexivity.
+      * exists []. reflexivity.
   - cbn [write_loop] in H. destruct (wb_has_remaining data) eqn:Hrem.
     + destruct a as [k| |e].
       * rewrite fact_advance in H.
@@ -165,40 +176,69 @@ Proof.
         destruct (chunk_prefix data) as (rest & Hview). fold c in Hview.
         assert (Hw : w <= len (wb_view data)) by (rewrite Hview, len_app; unfold w; lia).
         destruct (wb_advance_ok w data Hw) as (d' & Hadv & Hv'). rewrite Hadv in H.
-        destruct (IH _ _ _ _ _ _ H) as (E1 & E2 & E3 & E4 & E5 & E6 & E7 & (used & E8)).
+        destruct (IH _ _ _ _ _ _ H) as (E0 & (rest0 & E1) & EF & E2 & E3 & E4 & E5 & E6 & E7 & (used & E8)).
         cbn [q_accept qs_log qs_id qs_finished qs_reset] in *.
+        assert (Hf : firstn (N.to_nat w) c = firstn (N.to_nat w) (wb_view data)).
+        { rewrite Hview. rewrite firstn_app_le; [reflexivity|]. unfold w, len. lia. }
+        assert (Hcut : (qs_log q ++ firstn (N.to_nat w) c) ++ wb_view d' = qs_log q ++ wb_view data).
+        { rewrite Hv'. rewrite <- app_assoc. f_equal. rewrite Hf. apply firstn_skipn. }
         repeat split; auto.
-        -- rewrite E1, Hv'. rewrite <- app_assoc. f_equal.
-           assert (Hf : firstn (N.to_nat w) c = firstn (N.to_nat w) (wb_view data)).
-           { rewrite Hview. rewrite firstn_app_le; [reflexivity|]. unfold w, len. lia. }
-           rewrite Hf. apply firstn_skipn.
+        -- intros Hnf. rewrite (E0 Hnf). exact Hcut.
+        -- exists rest0. rewrite E1. exact Hcut.
         -- exists (WAccept k :: used). rewrite E8. reflexivity.
-      * inversion H; subst. cbn [view_opt]. repeat split; auto; try discriminate.
+      * inversion H; subst. cbn [view_opt poll_failed]. repeat split; auto; try discriminate; try contradiction.
+        -- exists []. rewrite app_nil_r. reflexivity.
         -- intros _. exists data. auto.
         -- exists [WBlocked]. reflexivity.
-      * inversion H; subst. cbn [view_opt]. repeat split; auto.
-        -- apply (@of_conv_write_not_panic unit).
-        -- intros C. rewrite convert_write_error_spec in C. discriminate.
-        -- intros _. exists data. auto.
+      * rewrite fact_gives_up in H. inversion H; subst. cbn [view_opt]. rewrite convert_write_error_spec. cbn [of_conv poll_failed].
+        repeat split; auto; try discriminate.
+        -- intros C. exfalso. apply C. exact I.
+        -- exists (wb_view data). reflexivity.
         -- exists [WFail e]. reflexivity.
-    + rewrite fact_clears in H. inversion H; subst. cbn [view_opt]. rewrite (has_remaining_false _ Hrem).
-      repeat split; auto; try (intros C; congruence). exists []. reflexivity.
+    + rewrite fact_clears in H. inversion H; subst. cbn [view_opt poll_failed]. rewrite (has_remaining_false _ Hrem).
+      repeat split; auto; try (intros C; congruence); try contradiction.
+      * exists []. reflexivity.
+      * exists []. reflexivity.
 Qed.
 
 Lemma poll_ready_exact o s r s' o' :
   poll_ready o s = (r, s', o') ->
-  qs_log (s_q s') ++ view_opt (s_writing s') = qs_log (s_q s) ++ view_opt (s_writing s) /\
+  (~ poll_failed r -> qs_log (s_q s') ++ view_opt (s_writing s') = qs_log (s_q s) ++ view_opt (s_writing s)) /\
   qs_id (s_q s') = qs_id (s_q s) /\ qs_finished (s_q s') = qs_finished (s_q s) /\ qs_reset (s_q s') = qs_reset (s_q s) /\
   poll_not_panic r /\
   (r = Ready (Ok tt) -> s_writing s' = None) /\
-  (exists used, o = used ++ o').
+  (exists used, o = used ++ o') /\
+  (exists rest, qs_log (s_q s') ++ view_opt (s_writing s') ++ rest = qs_log (s_q s) ++ view_opt (s_writing s)) /\
+  (poll_failed r -> s_writing s' = None).
 Proof.
   unfold poll_ready. destruct (s_writing s) as [data|] eqn:Hw.
   - destruct (write_loop o (s_q s) data) as [[[r0 q0] w0] o0] eqn:HL. intros H. inversion H; subst. cbn [s_q s_writing].
-    destruct (write_loop_exact _ _ _ _ _ _ _ HL) as (E1 & E2 & E3 & E4 & E5 & E6 & _ & E8).
+    destruct (write_loop_exact _ _ _ _ _ _ _ HL) as (E0 & E1 & EF & E2 & E3 & E4 & E5 & E6 & _ & E8).
     cbn [view_opt]. repeat split; auto.
-  - intros H. inversion H; subst. rewrite Hw. repeat split; auto. exists []. reflexivity.
+  - intros H. inversion H; subst. rewrite Hw. cbn [poll_failed view_opt]. repeat split; auto; try contradiction.
+    + exists []. reflexivity.
+    + exists []. rewrite !app_nil_r. reflexivity.
 Qed.
+
+(* a poll_ready that reports an error has consumed a failing answer of Quinn, and reports it in its class *)
+Lemma poll_ready_error_source o s e s' o' :
+  poll_ready o s = (Ready (Err e), s', o') ->
+  exists qe used, o = used ++ WFail qe :: o' /\ e = spec_write_class qe.
+Proof.
+  intros H. unfold poll_ready in H. destruct (s_writing s) as [data|]; [|discriminate].
+  destruct (write_loop o (s_q s) data) as [[[r0 q0] w0] o0] eqn:HL. inversion H; subst r0 o0. clear H.
+  revert data HL. generalize (s_q s). induction o as [|a o IH]; intros q data HL.
+  - cbn [write_loop] in HL. destruct (wb_has_remaining data); [discriminate|]. destruct poll_ready_clears_writing; discriminate.
+  - cbn [write_loop] in HL. destruct (wb_has_remaining data); [|destruct poll_ready_clears_writing; discriminate].
+    destruct a as [k| |qe].
+    + destruct (wb_advance _ data) as [d'|]; [|discriminate].
+      destruct (IH _ _ HL) as (qe & used & Hu & He). exists qe, (WAccept k :: used). rewrite Hu. split; [reflexivity|exact He].
+    + discriminate.
+    + rewrite convert_write_error_spec in HL. cbn [of_conv] in HL. inversion HL; subst. exists qe, []. split; reflexivity.
+Qed.
+
+Lemma write_class_not_finish qe : spec_write_class qe <> HUnknownFinish.
+Proof. destruct qe; discriminate. Qed.
 
 (* SendStreamUnframed::poll_send.  While a framed write is unfinished it is refused (the Rust panics) and
    touches nothing: the raw bytes are never interleaved with the buffer in flight. *)
@@ -258,27 +298,44 @@ Qed.
 
 Lemma poll_finish_exact o s r s' o' :
   poll_finish o s = (r, s', o') ->
-  qs_log (s_q s') ++ view_opt (s_writing s') = qs_log (s_q s) ++ view_opt (s_writing s) /\
+  (~ poll_failed r \/ r = Ready (Err HUnknownFinish) ->
+   qs_log (s_q s') ++ view_opt (s_writing s') = qs_log (s_q s) ++ view_opt (s_writing s)) /\
   qs_id (s_q s') = qs_id (s_q s) /\
   poll_not_panic r /\
   (r = Ready (Ok tt) -> s_writing s' = None /\ qs_finished (s_q s') = true) /\
-  (exists used, o = used ++ o').
+  (exists used, o = used ++ o') /\
+  (* any other error is a write error met while draining `writing`: poll_ready's own answer *)
+  (poll_failed r -> r <> Ready (Err HUnknownFinish) -> exists e, r = Ready (Err e) /\ poll_ready o s = (Ready (Err e), s', o')).
 Proof.
   unfold poll_finish, poll_finish_with. rewrite fact_finish_drains.
   destruct (s_writing s) as [d|] eqn:Hw.
   - destruct (poll_ready o s) as [[r1 s1] o1] eqn:HP.
-    destruct (poll_ready_exact _ _ _ _ _ HP) as (E1 & E2 & _ & _ & E5 & E6 & E7).
+    destruct (poll_ready_exact _ _ _ _ _ HP) as (E1 & E2 & _ & _ & E5 & E6 & E7 & _ & _).
     destruct r1 as [[[]|e|p]|].
     + destruct (q_finish s1) as [r2 s2] eqn:HF. intros H. inversion H; subst.
       destruct (q_finish_exact _ _ _ HF) as (F1 & F2 & F3 & F4 & F5).
-      rewrite F1, F2, F3. split; [rewrite E1, Hw; reflexivity|]. split; [exact E2|]. split; [exact F4|]. split; [|exact E7].
-      intros Hr. split; [apply E6; reflexivity|apply F5; exact Hr].
-    + intros H. inversion H; subst. rewrite Hw in E1. repeat split; auto; discriminate.
-    + intros H. inversion H; subst. rewrite Hw in E1. repeat split; auto; discriminate.
-    + intros H. inversion H; subst. rewrite Hw in E1. repeat split; auto; discriminate.
+      rewrite F1, F2, F3. split; [intros _; rewrite E1, Hw by (cbn; tauto); reflexivity|]. split; [exact E2|]. split; [exact F4|].
+      split; [|split; [exact E7|]].
+      * intros Hr. split; [apply E6; reflexivity|apply F5; exact Hr].
+      * intros Hf Hne. exfalso. unfold q_finish in HF.
+        destruct (qs_finished (s_q s1) || match qs_reset (s_q s1) with Some _ => true | None => false end);
+          inversion HF; subst; [apply Hne; reflexivity|exact Hf].
+    + intros H. inversion H; subst. cbn [poll_failed].
+      destruct (poll_ready_error_source _ _ _ _ _ HP) as (qe & used & Hu & He).
+      split.
+      * intros [C|C]; [exfalso; apply C; exact I|]. inversion C as [C1]. exfalso. subst e. exact (write_class_not_finish qe C1).
+      * repeat split; auto; try discriminate. intros _ _. exists e. split; reflexivity.
+    + intros H. inversion H; subst. rewrite Hw in E1. cbn [poll_failed] in *.
+      repeat split; auto; try discriminate; try contradiction; try (intros _; apply E1; tauto).
+    + intros H. inversion H; subst. rewrite Hw in E1. cbn [poll_failed] in *.
+      repeat split; auto; try discriminate; try contradiction; try (intros _; apply E1; tauto).
   - destruct (q_finish s) as [r2 s2] eqn:HF. intros H. inversion H; subst.
     destruct (q_finish_exact _ _ _ HF) as (F1 & F2 & F3 & F4 & F5).
-    rewrite F1, F2, F3, Hw. repeat split; auto. exists []. reflexivity.
+    rewrite F1, F2, F3, Hw. repeat split; auto.
+    + exists []. reflexivity.
+    + intros Hf Hne. exfalso. unfold q_finish in HF.
+      destruct (qs_finished (s_q s) || match qs_reset (s_q s) with Some _ => true | None => false end);
+        inversion HF; subst; [apply Hne; reflexivity|exact Hf].
 Qed.
 
 (* T1c: an overlapping send_data is refused and touches nothing *)
@@ -318,10 +375,20 @@ Proof.
   destruct (N.ltb_spec (qs_id (s_q s)) (2 ^ 62)); [reflexivity|lia].
 Qed.
 
+(* a poll_ready / poll_finish that reported an error: the only events after which the exact account below stops
+   (the rest of the buffer in flight has been given up) *)
+Definition no_write_failure (ev : send_op * send_result) : Prop :=
+  match ev with
+  | (OPollReady, SRPoll p) => ~ poll_failed p
+  | (OPollFinish, SRPoll p) => ~ poll_failed p \/ p = Ready (Err HUnknownFinish)   (* finish() itself failing loses nothing *)
+  | _ => True
+  end.
+
 Lemma send_step_exact op s o r s' o' :
   send_step op s o = (r, s', o') ->
-  qs_log (s_q s') ++ view_opt (s_writing s') =
-    (qs_log (s_q s) ++ view_opt (s_writing s)) ++ spec_handed [abs_send (op, r)] /\
+  (no_write_failure (op, r) ->
+   qs_log (s_q s') ++ view_opt (s_writing s') =
+    (qs_log (s_q s) ++ view_opt (s_writing s)) ++ spec_handed [abs_send (op, r)]) /\
   qs_id (s_q s') = qs_id (s_q s) /\
   (qs_id (s_q s) <= varint_max -> send_ev_ok (op, r)) /\
   (exists used, o = used ++ o').
@@ -336,21 +403,21 @@ Proof.
       destruct (poll_send_exact _ _ _ _ _ _ _ Hw HP) as (_ & E2 & E3 & E4 & _ & E6 & E7).
       rewrite E2. cbn [view_opt]. rewrite !app_nil_r. rewrite E6.
       split.
-      + f_equal. destruct r0 as [[k|e|p]|]; cbn [raw_of abs_send spec_handed]; rewrite ?app_nil_r; reflexivity.
+      + intros _. f_equal. destruct r0 as [[k|e|p]|]; cbn [raw_of abs_send spec_handed]; rewrite ?app_nil_r; reflexivity.
       + split; [exact E3|]. split; [|exact E7]. intros _. unfold send_ev_ok. cbn [snd].
         destruct r0 as [[k|e|p]|]; auto. cbn in E4. contradiction. }
   - destruct (s_writing s) as [d|] eqn:Hw.
-    + rewrite (send_data_refused b d s Hw) in H. inversion H; subst. cbn. rewrite app_nil_r, ?Hw. cbn [view_opt].
+    + rewrite (send_data_refused b d s Hw) in H. inversion H; subst. cbn [no_write_failure]. cbn. rewrite app_nil_r, ?Hw. cbn [view_opt].
       repeat split; auto. exists []. reflexivity.
     + rewrite (send_data_accepted b s Hw) in H. inversion H; subst. cbn [s_q s_writing view_opt abs_send spec_handed].
       rewrite ?Hw. cbn [view_opt]. rewrite !app_nil_r. unfold wb_view.
       repeat split; auto. exists []. reflexivity.
   - destruct (poll_ready o s) as [[r0 s0] o0] eqn:HP. inversion H; subst.
-    destruct (poll_ready_exact _ _ _ _ _ HP) as (E1 & E2 & _ & _ & E5 & _ & E7).
-    cbn [abs_send spec_handed]. rewrite app_nil_r. repeat split; auto.
+    destruct (poll_ready_exact _ _ _ _ _ HP) as (E1 & E2 & _ & _ & E5 & _ & E7 & _ & _).
+    cbn [abs_send spec_handed no_write_failure]. rewrite app_nil_r. repeat split; auto.
   - destruct (poll_finish o s) as [[r0 s0] o0] eqn:HP. inversion H; subst.
-    destruct (poll_finish_exact _ _ _ _ _ HP) as (E1 & E2 & E3 & _ & E5).
-    cbn [abs_send spec_handed]. rewrite app_nil_r. repeat split; auto.
+    destruct (poll_finish_exact _ _ _ _ _ HP) as (E1 & E2 & E3 & _ & E5 & _).
+    cbn [abs_send spec_handed no_write_failure]. rewrite app_nil_r. repeat split; auto.
   - unfold send_reset, reset_code in H. rewrite fact_saturates in H.
     destruct (c <=? varint_max); inversion H; subst; cbn; rewrite app_nil_r; repeat split; auto; exists []; reflexivity.
   - inversion H; subst. cbn [abs_send spec_handed]. rewrite app_nil_r. repeat split; auto.
@@ -366,8 +433,9 @@ Qed.
 (* T1a: for every program and every oracle *)
 Lemma send_run_exact ops : forall s o tr s' o',
   send_run ops s o = (tr, s', o') ->
-  qs_log (s_q s') ++ view_opt (s_writing s') =
-    (qs_log (s_q s) ++ view_opt (s_writing s)) ++ spec_handed (map abs_send tr) /\
+  (Forall no_write_failure tr ->
+   qs_log (s_q s') ++ view_opt (s_writing s') =
+    (qs_log (s_q s) ++ view_opt (s_writing s)) ++ spec_handed (map abs_send tr)) /\
   qs_id (s_q s') = qs_id (s_q s) /\
   (qs_id (s_q s) <= varint_max -> Forall send_ev_ok tr) /\
   map fst tr = ops.
@@ -379,7 +447,8 @@ Proof.
     destruct (send_step_exact _ _ _ _ _ _ HS) as (E1 & E2 & E3 & _).
     destruct (IH _ _ _ _ _ HR) as (F1 & F2 & F3 & F4).
     repeat split.
-    + rewrite F1, E1. cbn [map]. change (abs_send (op, r) :: map abs_send tr1) with ([abs_send (op, r)] ++ map abs_send tr1).
+    + intros Hnf. rewrite F1 by (exact (Forall_inv_tail Hnf)). rewrite E1 by (exact (Forall_inv Hnf)).
+      cbn [map]. change (abs_send (op, r) :: map abs_send tr1) with ([abs_send (op, r)] ++ map abs_send tr1).
       rewrite spec_handed_app. rewrite !app_assoc. reflexivity.
     + congruence.
     + intros Hid. constructor; [apply E3; assumption|]. apply F3. rewrite E2. assumption.
@@ -391,10 +460,11 @@ Qed.
 Lemma send_run_complete ops s o tr s' o' :
   send_run (ops ++ [OPollReady]) s o = (tr, s', o') ->
   (exists tr0, tr = tr0 ++ [(OPollReady, SRPoll (Ready (Ok tt)))]) ->
+  Forall no_write_failure tr ->
   s_writing s' = None /\
   qs_log (s_q s') = (qs_log (s_q s) ++ view_opt (s_writing s)) ++ spec_handed (map abs_send tr).
 Proof.
-  intros H (tr0 & Htr).
+  intros H (tr0 & Htr) Hnf.
   assert (Hsplit : forall ops1 ops2 s o,
     send_run (ops1 ++ ops2) s o =
       let '(t1, s1, o1) := send_run ops1 s o in let '(t2, s2, o2) := send_run ops2 s1 o1 in (t1 ++ t2, s2, o2)).
@@ -402,12 +472,12 @@ Proof.
     - cbn. destruct (send_run ops2 s o) as [[t2 s2] o2]. reflexivity.
     - cbn [app send_run]. destruct (send_step op s o) as [[r s1] o1]. rewrite IH.
       destruct (send_run ops1 s1 o1) as [[t1 s2] o2]. destruct (send_run ops2 s2 o2) as [[t2 s3] o3]. reflexivity. }
-  pose proof (send_run_exact _ _ _ _ _ _ H) as (E1 & _ & _ & _).
+  pose proof (send_run_exact _ _ _ _ _ _ H) as (E1 & _ & _ & _). specialize (E1 Hnf).
   rewrite Hsplit in H. destruct (send_run ops s o) as [[t1 s1] o1] eqn:H1.
   cbn [send_run send_step] in H. destruct (poll_ready o1 s1) as [[r2 s2] o2] eqn:HP.
   injection H as Htr' Hs' Ho'. subst s2 o2.
   rewrite Htr in Htr'. apply app_inj_tail in Htr'. destruct Htr' as [_ Heq]. injection Heq as Hr. subst r2.
-  destruct (poll_ready_exact _ _ _ _ _ HP) as (_ & _ & _ & _ & _ & E6 & _).
+  destruct (poll_ready_exact _ _ _ _ _ HP) as (_ & _ & _ & _ & _ & E6 & _ & _ & _).
   specialize (E6 eq_refl). split; [exact E6|]. rewrite E6 in E1. cbn [view_opt] in E1. rewrite app_nil_r in E1. exact E1.
 Qed.
 
@@ -506,17 +576,20 @@ Proof.
 Qed.
 
 (* receive side.  The invariant of the ownership dance: the Quinn stream is in `self.stream` or inside
-   the read future, never lost, never duplicated; no stop is held while the stream is at hand *)
+   the read future, never lost, never duplicated; no stop is held while the stream is at hand; once the peer's
+   reset has been recorded the stream is at hand (it was put back before the memo was written) *)
 Definition recv_inv (id : N) (r : recv_stream) : Prop :=
   r_id r = id /\
   (exists q, underlying r = Some q /\ qr_id q = id) /\
-  (r_stream r <> None -> r_pending_stop r = None).
+  (r_stream r <> None -> r_pending_stop r = None) /\
+  (r_reset r <> None -> r_stream r <> None).
 
-Lemma recv_new_inv id : id <= varint_max -> exists r, recv_new (qrecv_new id) = Ok r /\ recv_inv id r /\ r_stream r <> None.
+Lemma recv_new_inv id : id <= varint_max ->
+  exists r, recv_new (qrecv_new id) = Ok r /\ recv_inv id r /\ r_stream r <> None /\ r_reset r = None.
 Proof.
   intros H. unfold recv_new. cbn [qrecv_new qr_id]. rewrite sid_try_from_spec. unfold varint_max in H.
   destruct (N.ltb_spec id (2 ^ 62)); [|lia]. eexists. split; [reflexivity|].
-  split; [|cbn; congruence]. repeat split; cbn; eauto.
+  split; [|cbn; split; congruence]. repeat split; cbn; eauto; congruence.
 Qed.
 
 Lemma recv_id_ok id r : recv_inv id r -> recv_id r = Ok id.
@@ -573,29 +646,40 @@ Proof.
   rewrite convert_read_error_spec. destruct (spec_read_class e); reflexivity.
 Qed.
 
+(* the reset code a completed read leaves in the memo *)
+Definition reset_after (r : recv_stream) (a : ranswer) : option N :=
+  match a with RFail (QRReset c) => Some c | _ => r_reset r end.
+
 (* poll_data under the invariant: the read future owns (or is given) the Quinn stream *)
 Definition blocked_state (r : recv_stream) (q : qrecv) : recv_stream :=
-  {| r_id := r_id r; r_stream := None; r_fut := FutReading q; r_pending_stop := r_pending_stop r |}.
-Definition ready_state (r : recv_stream) (q : qrecv) : recv_stream :=
+  {| r_id := r_id r; r_stream := None; r_fut := FutReading q; r_pending_stop := r_pending_stop r; r_reset := r_reset r |}.
+Definition ready_state (r : recv_stream) (q : qrecv) (a : ranswer) : recv_stream :=
   {| r_id := r_id r;
      r_stream := Some match r_pending_stop r with Some c => q_stop c q | None => q end;
-     r_fut := FutDone; r_pending_stop := None |}.
+     r_fut := FutDone; r_pending_stop := None; r_reset := reset_after r a |}.
 
+(* no reset recorded: the read goes to Quinn *)
 Lemma poll_data_char r q o :
-  underlying r = Some q ->
+  underlying r = Some q -> r_reset r = None ->
   poll_data o r =
     match o with
     | [] => (Pending, blocked_state r q, [])
     | RBlocked :: o' => (Pending, blocked_state r q, o')
-    | a :: o' => (Ready (read_result a), ready_state r q, o')
+    | a :: o' => (Ready (read_result a), ready_state r q a, o')
     end.
 Proof.
-  intros Hq. unfold poll_data.
+  intros Hq Hr. unfold poll_data, poll_data_with. rewrite Hr.
   assert (Hf : match r_stream r with Some q0 => FutReading q0 | None => r_fut r end = FutReading q).
   { unfold underlying in Hq. destruct (r_stream r) as [q0|]; [congruence|]. destruct (r_fut r); congruence. }
-  rewrite Hf, fact_delivers, fact_puts_back, fact_puts_back_on_error. unfold blocked_state, ready_state.
-  destruct o as [|[b| | |e] o1]; reflexivity.
+  destruct (if poll_data_reset_memo then @None N else None) eqn:Hm; [destruct poll_data_reset_memo; discriminate|].
+  rewrite Hf, fact_delivers, fact_puts_back, fact_puts_back_on_error. unfold blocked_state, ready_state, reset_after.
+  rewrite ?Hr. destruct o as [|[b| | |e] o1]; try reflexivity; try (destruct e; reflexivity).
 Qed.
+
+(* the peer's reset was reported before: it is reported again, nothing else happens, Quinn is not asked *)
+Lemma poll_data_reset r c o :
+  r_reset r = Some c -> poll_data o r = (Ready (Err (HStreamTerminated c)), r, o).
+Proof. intros Hr. unfold poll_data, poll_data_with. rewrite Hr. reflexivity. Qed.
 
 Lemma underlying_blocked r q : underlying (blocked_state r q) = Some q.
 Proof. reflexivity. Qed.
@@ -603,24 +687,29 @@ Proof. reflexivity. Qed.
 Lemma recv_step_inv id op r o x r' o' :
   recv_inv id r -> recv_step op r o = (x, r', o') -> recv_inv id r'.
 Proof.
-  intros (Hid & (q & Hq & Hqid) & Hps) H.
+  intros (Hid & (q & Hq & Hqid) & Hps & Hrs) H.
   destruct op as [|c|]; cbn [recv_step] in H.
-  - rewrite (poll_data_char r q o Hq) in H.
-    destruct o as [|[b| | |e] o1]; inversion H; subst x r' o'; unfold recv_inv;
-      (split; [exact Hid|split; [|cbn; congruence]]).
-    all: try (exists q; split; [reflexivity|exact Hqid]).
-    all: cbn [ready_state underlying r_stream]; destruct (r_pending_stop r); eexists; split; try reflexivity; exact Hqid.
+  - destruct (r_reset r) as [c|] eqn:Hr.
+    + rewrite (poll_data_reset r c o Hr) in H. inversion H; subst x r' o'.
+      split; [exact Hid|split; [exists q; auto|split; [exact Hps|rewrite Hr; exact Hrs]]].
+    + rewrite (poll_data_char r q o Hq Hr) in H.
+      destruct o as [|[b| | |e] o1]; inversion H; subst x r' o'; unfold recv_inv;
+        (split; [exact Hid|split; [|split; [cbn; congruence|cbn; congruence]]]).
+      all: try (exists q; split; [reflexivity|exact Hqid]).
+      all: cbn [ready_state underlying r_stream]; destruct (r_pending_stop r); eexists; split; try reflexivity; exact Hqid.
   - unfold stop_sending in H. destruct (varint_max <? c).
     + inversion H; subst. repeat split; eauto.
     + rewrite fact_defers in H. unfold underlying in Hq. destruct (r_stream r) as [q0|] eqn:Hs.
       * inversion Hq; subst q0. inversion H; subst x r' o'.
-        split; [exact Hid|split].
+        split; [exact Hid|split; [|split]].
         -- eexists. split; [reflexivity|exact Hqid].
         -- intros _. cbn. apply Hps. congruence.
+        -- cbn. congruence.
       * inversion H; subst x r' o'.
-        split; [exact Hid|split].
+        split; [exact Hid|split; [|split]].
         -- exists q. split; [|exact Hqid]. unfold underlying. cbn. exact Hq.
         -- cbn. congruence.
+        -- cbn. intros Hn. apply Hrs in Hn. congruence.
   - inversion H; subst. repeat split; eauto.
 Qed.
 
@@ -628,15 +717,23 @@ Lemma recv_step_rel id op r o x r' o' st :
   recv_inv id r -> stop_rel r st -> recv_step op r o = (x, r', o') ->
   stop_rel r' (stop_step st (abs_recv (op, x))).
 Proof.
-  intros (Hid & (q & Hq & Hqid) & Hps) (S1 & S2 & (q2 & Hq2 & S3)) H.
+  intros (Hid & (q & Hq & Hqid) & Hps & Hrs) (S1 & S2 & (q2 & Hq2 & S3)) H.
   rewrite Hq in Hq2. inversion Hq2; subst q2. clear Hq2.
   destruct op as [|c|]; cbn [recv_step] in H.
-  - rewrite (poll_data_char r q o Hq) in H.
-    destruct o as [|[b| | |e] o1]; inversion H; subst x r' o'; cbn [abs_recv stop_step]; unfold stop_rel.
-    all: try (split; [reflexivity|split; [exact S2|exists q; split; [reflexivity|exact S3]]]).
-    all: split; [reflexivity|split; [reflexivity|]];
-      cbn [ready_state underlying r_stream delivered]; rewrite <- S2;
-      destruct (held st); eexists; (split; [reflexivity|]); cbn [q_stop qr_stops]; rewrite S3, ?app_nil_r; reflexivity.
+  - destruct (r_reset r) as [c|] eqn:Hr.
+    + (* the reset is reported again: the stream is at hand, nothing is held, nothing changes *)
+      rewrite (poll_data_reset r c o Hr) in H. inversion H; subst x r' o'. cbn [abs_recv stop_step]. unfold stop_rel.
+      assert (Hs : r_stream r <> None) by (apply Hrs; congruence).
+      pose proof (Hps Hs) as Hp. rewrite Hp in S2.
+      destruct (r_stream r) as [q0|] eqn:Hs0; [|congruence].
+      cbn [in_flight held delivered].
+      split; [reflexivity|split; [symmetry; exact Hp|]]. exists q. split; [exact Hq|]. rewrite S2, app_nil_r. exact S3.
+    + rewrite (poll_data_char r q o Hq Hr) in H.
+      destruct o as [|[b| | |e] o1]; inversion H; subst x r' o'; cbn [abs_recv stop_step]; unfold stop_rel.
+      all: try (split; [reflexivity|split; [exact S2|exists q; split; [reflexivity|exact S3]]]).
+      all: split; [reflexivity|split; [reflexivity|]];
+        cbn [ready_state underlying r_stream delivered]; rewrite <- S2;
+        destruct (held st); eexists; (split; [reflexivity|]); cbn [q_stop qr_stops]; rewrite S3, ?app_nil_r; reflexivity.
   - unfold stop_sending in H. destruct (varint_max <? c).
     + inversion H; subst. cbn [abs_recv stop_step]. repeat split; eauto.
     + rewrite fact_defers in H. unfold underlying in Hq. destruct (r_stream r) as [q0|] eqn:Hs.
@@ -654,33 +751,16 @@ Proof. intros Hinv H. cbn [recv_step] in H. inversion H; subst. rewrite (recv_id
 Lemma recv_step_not_panic id op r o x r' o' :
   recv_inv id r -> op_codes_ok op -> answers_ordered o -> recv_step op r o = (x, r', o') -> rr_not_panic x.
 Proof.
-  intros Hinv Hc Hord H. pose proof Hinv as (Hid & (q & Hq & Hqid) & Hps).
+  intros Hinv Hc Hord H. pose proof Hinv as (Hid & (q & Hq & Hqid) & Hps & Hrs).
   destruct op as [|c|]; cbn [recv_step] in H.
-  - rewrite (poll_data_char r q o Hq) in H.
-    destruct o as [|[b| | |e] o1]; inversion H; subst x r' o'; cbn; auto.
-    inversion Hord as [|? ? Ha _]; subst. apply (read_result_not_panic (RFail e)); [discriminate|assumption].
+  - destruct (r_reset r) as [c|] eqn:Hr.
+    + rewrite (poll_data_reset r c o Hr) in H. inversion H; subst. exact I.
+    + rewrite (poll_data_char r q o Hq Hr) in H.
+      destruct o as [|[b| | |e] o1]; inversion H; subst x r' o'; cbn; auto.
+      inversion Hord as [|? ? Ha _]; subst. apply (read_result_not_panic (RFail e)); [discriminate|assumption].
   - unfold stop_sending in H. cbn in Hc. destruct (N.ltb_spec varint_max c); [lia|].
     rewrite fact_defers in H. destruct (r_stream r); inversion H; subst; exact I.
   - inversion H; subst. unfold rr_not_panic. rewrite (recv_id_ok _ _ Hinv). exact I.
-Qed.
-
-Lemma recv_step_consumes id op r o x r' o' :
-  recv_inv id r -> recv_step op r o = (x, r', o') ->
-  exists used, o = used ++ o' /\ spec_read_outcomes spec_read_class used = match is_ready_data x with Some v => [abs_outcome v] | None => [] end.
-Proof.
-  intros (Hid & (q & Hq & Hqid) & Hps) H.
-  destruct op as [|c|]; cbn [recv_step] in H.
-  - rewrite (poll_data_char r q o Hq) in H.
-    destruct o as [|[b| | |e] o1]; inversion H; subst x r' o'.
-    + exists []. split; reflexivity.
-    + exists [RChunk b]. split; reflexivity.
-    + exists [RFin]. split; reflexivity.
-    + exists [RBlocked]. split; reflexivity.
-    + exists [RFail e]. split; [reflexivity|]. cbn [spec_read_outcomes is_ready_data].
-      rewrite <- (read_result_outcome (RFail e)) by discriminate. reflexivity.
-  - unfold stop_sending in H. destruct (varint_max <? c); [|rewrite fact_defers in H; destruct (r_stream r)];
-      inversion H; subst; exists []; split; reflexivity.
-  - inversion H; subst. exists []. split; reflexivity.
 Qed.
 
 (* ====================================================================== whole receive-side programs *)
@@ -688,11 +768,52 @@ Qed.
 Definition ready_outcomes (tr : list (recv_op * recv_result)) : list read_outcome :=
   flat_map (fun ev => match is_ready_data (snd ev) with Some v => [abs_outcome v] | None => [] end) tr.
 
-Lemma spec_read_outcomes_app c a b :
-  spec_read_outcomes c (a ++ b) = spec_read_outcomes c a ++ spec_read_outcomes c b.
+Definition is_poll (op : recv_op) : bool := match op with OPollData => true | _ => false end.
+Definition count_polls (ops : list recv_op) : nat := length (filter is_poll ops).
+
+(* stop_sending and recv_id leave the memo alone *)
+Lemma recv_step_keeps_reset op r o x r' o' :
+  is_poll op = false -> recv_step op r o = (x, r', o') ->
+  r_reset r' = r_reset r /\ o' = o /\ is_ready_data x = None.
 Proof.
-  induction a as [|x a IH]; [reflexivity|]. cbn [app spec_read_outcomes].
-  destruct (spec_read_outcome c x); rewrite IH; reflexivity.
+  intros Hop H. destruct op as [|c|]; [discriminate| |]; cbn [recv_step] in H.
+  - unfold stop_sending in H. destruct (varint_max <? c); [|destruct (r_stream r); [|destruct stop_sending_defers]];
+      inversion H; subst; repeat split.
+  - inversion H; subst. repeat split.
+Qed.
+
+(* receive fidelity: the outcomes the application gets, and what is left of Quinn's answers, are those of the
+   specification's reader started in the adapter's memo state *)
+Lemma recv_run_reads ops : forall id r o tr r' o',
+  recv_inv id r -> recv_run ops r o = (tr, r', o') ->
+  spec_reads spec_read_class (r_reset r) (count_polls ops) o = (ready_outcomes tr, o').
+Proof.
+  induction ops as [|op ops IH]; intros id r o tr r' o' Hinv H.
+  - cbn in H. inversion H; subst. reflexivity.
+  - cbn [recv_run] in H. destruct (recv_step op r o) as [[x r1] o1] eqn:HS.
+    destruct (recv_run ops r1 o1) as [[tr1 r2] o2] eqn:HR. inversion H; subst tr r' o'. clear H.
+    pose proof (recv_step_inv _ _ _ _ _ _ _ Hinv HS) as Hinv1.
+    specialize (IH _ _ _ _ _ _ Hinv1 HR).
+    destruct (is_poll op) eqn:Hop.
+    + destruct op; try discriminate. unfold count_polls. cbn [filter is_poll length]. fold (count_polls ops).
+      cbn [recv_step] in HS. pose proof Hinv as (Hid & (q & Hq & Hqid) & Hps & Hrs).
+      unfold ready_outcomes. cbn [flat_map snd]. fold (ready_outcomes tr1).
+      destruct (r_reset r) as [c|] eqn:Hr.
+      * rewrite (poll_data_reset r c o Hr) in HS. inversion HS; subst x r1 o1.
+        cbn [spec_reads]. rewrite Hr in IH. rewrite IH. reflexivity.
+      * rewrite (poll_data_char r q o Hq Hr) in HS. cbn [spec_reads].
+        destruct o as [|a o0].
+        -- inversion HS; subst x r1 o1. cbn [blocked_state r_reset] in IH. rewrite Hr in IH. rewrite IH. reflexivity.
+        -- destruct a as [b| | |e]; inversion HS; subst x r1 o1; cbn [ready_state blocked_state r_reset reset_after] in IH;
+             rewrite ?Hr in IH; cbn [spec_read_outcome is_ready_data abs_outcome read_result app].
+           ++ rewrite IH. reflexivity.
+           ++ rewrite IH. reflexivity.
+           ++ rewrite IH. reflexivity.
+           ++ unfold reset_after in IH. cbn [of_conv].
+              destruct e as [c|ce| | |]; rewrite IH; rewrite ?convert_read_error_spec; cbn [spec_read_class]; reflexivity.
+    + destruct (recv_step_keeps_reset _ _ _ _ _ _ Hop HS) as (E1 & E2 & E3). subst o1.
+      unfold count_polls. cbn [filter]. rewrite Hop. fold (count_polls ops). rewrite <- E1, IH.
+      unfold ready_outcomes. cbn [flat_map snd]. rewrite E3. reflexivity.
 Qed.
 
 Lemma recv_run_ok ops : forall id r o st tr r' o',
@@ -701,17 +822,28 @@ Lemma recv_run_ok ops : forall id r o st tr r' o',
   Forall (fun ev => fst ev = ORecvId -> snd ev = RRId (Ok id)) tr /\
   (Forall op_codes_ok ops -> answers_ordered o -> Forall (fun ev => rr_not_panic (snd ev)) tr) /\
   map fst tr = ops /\
-  exists used, o = used ++ o' /\ spec_read_outcomes spec_read_class used = ready_outcomes tr.
+  exists used, o = used ++ o'.
 Proof.
   induction ops as [|op ops IH]; intros id r o st tr r' o' Hinv Hrel H.
   - cbn in H. inversion H; subst. cbn [map stop_run fold_left].
-    split; [exact Hinv|split; [exact Hrel|split; [constructor|split; [intros; constructor|split; [reflexivity|exists []; split; reflexivity]]]]].
+    split; [exact Hinv|split; [exact Hrel|split; [constructor|split; [intros; constructor|split; [reflexivity|exists []; reflexivity]]]]].
   - cbn [recv_run] in H. destruct (recv_step op r o) as [[x r1] o1] eqn:HS.
     destruct (recv_run ops r1 o1) as [[tr1 r2] o2] eqn:HR. inversion H; subst tr r' o'. clear H.
     pose proof (recv_step_inv _ _ _ _ _ _ _ Hinv HS) as Hinv1.
     pose proof (recv_step_rel _ _ _ _ _ _ _ _ Hinv Hrel HS) as Hrel1.
-    destruct (recv_step_consumes _ _ _ _ _ _ _ Hinv HS) as (u1 & Hu1 & Hs1).
-    destruct (IH _ _ _ _ _ _ _ Hinv1 Hrel1 HR) as (F1 & F2 & F3 & F4 & F5 & (u2 & Hu2 & Hs2)).
+    assert (Hu : exists u1, o = u1 ++ o1).
+    { pose proof Hinv as (Hid & (q & Hq & Hqid) & Hps & Hrs).
+      destruct op as [|c|]; cbn [recv_step] in HS.
+      - destruct (r_reset r) as [c|] eqn:Hr.
+        + rewrite (poll_data_reset r c o Hr) in HS. inversion HS; subst. exists []. reflexivity.
+        + rewrite (poll_data_char r q o Hq Hr) in HS.
+          destruct o as [|a o0]; [inversion HS; subst; exists []; reflexivity|].
+          destruct a; inversion HS; subst; eexists [_]; reflexivity.
+      - unfold stop_sending in HS. destruct (varint_max <? c); [|destruct (r_stream r); [|destruct stop_sending_defers]];
+          inversion HS; subst; exists []; reflexivity.
+      - inversion HS; subst. exists []. reflexivity. }
+    destruct Hu as (u1 & Hu1).
+    destruct (IH _ _ _ _ _ _ _ Hinv1 Hrel1 HR) as (F1 & F2 & F3 & F4 & F5 & (u2 & Hu2)).
     split; [exact F1|]. split; [exact F2|]. split; [|split; [|split]].
     + constructor; [|exact F3]. cbn [fst snd]. intros E. subst op. exact (recv_step_id _ _ _ _ _ _ Hinv HS).
     + intros Hc Hord. pose proof (Forall_inv Hc) as Hc1. pose proof (Forall_inv_tail Hc) as Hc2.
@@ -719,9 +851,7 @@ Proof.
       * cbn [snd]. exact (recv_step_not_panic _ _ _ _ _ _ _ Hinv Hc1 Hord HS).
       * apply F4; [assumption|]. unfold answers_ordered in *. rewrite Hu1 in Hord. apply Forall_app in Hord. tauto.
     + cbn [map fst]. rewrite F5. reflexivity.
-    + exists (u1 ++ u2). split.
-      * rewrite Hu1, Hu2. apply app_assoc.
-      * rewrite spec_read_outcomes_app, Hs1, Hs2. reflexivity.
+    + exists (u1 ++ u2). rewrite Hu1, Hu2. apply app_assoc.
 Qed.
 
 Lemma stop_rel_new r : r_stream r <> None -> r_pending_stop r = None ->
@@ -739,16 +869,56 @@ Lemma recv_program_ok id ops o r tr r' o' :
   (exists q, underlying r' = Some q /\ qr_id q = id /\
      qr_stops q = delivered (stop_run {| in_flight := false; held := None; delivered := [] |} (map abs_recv tr))) /\
   r_pending_stop r' = held (stop_run {| in_flight := false; held := None; delivered := [] |} (map abs_recv tr)) /\
-  (exists used, o = used ++ o' /\ spec_read_outcomes spec_read_class used = ready_outcomes tr).
+  spec_reads spec_read_class None (count_polls ops) o = (ready_outcomes tr, o').
 Proof.
-  intros Hid Hnew Hrun. destruct (recv_new_inv id Hid) as (r0 & Hr0 & Hinv & Hs). rewrite Hnew in Hr0. inversion Hr0; subst r0.
+  intros Hid Hnew Hrun. destruct (recv_new_inv id Hid) as (r0 & Hr0 & Hinv & Hs & Hrs0). rewrite Hnew in Hr0. inversion Hr0; subst r0.
   assert (Hrel : stop_rel r {| in_flight := false; held := None; delivered := [] |}).
   { unfold recv_new in Hnew. cbn [qrecv_new qr_id] in Hnew. destruct (sid_try_from id); inversion Hnew; subst.
     unfold stop_rel. cbn. repeat split. eexists. split; reflexivity. }
-  destruct (recv_run_ok _ _ _ _ _ _ _ _ Hinv Hrel Hrun) as (F1 & (S1 & S2 & (q & Hq & S3)) & F3 & F4 & _ & F6).
-  split; [exact F3|]. split; [exact F4|]. split; [|split; [congruence|exact F6]].
-  destruct F1 as (_ & (q' & Hq' & Hqid) & _). rewrite Hq in Hq'. inversion Hq'; subst q'.
-  exists q. auto.
+  destruct (recv_run_ok _ _ _ _ _ _ _ _ Hinv Hrel Hrun) as (F1 & (S1 & S2 & (q & Hq & S3)) & F3 & F4 & _ & _).
+  split; [exact F3|]. split; [exact F4|]. split; [|split; [congruence|]].
+  - destruct F1 as (_ & (q' & Hq' & Hqid) & _). rewrite Hq in Hq'. inversion Hq'; subst q'.
+    exists q. auto.
+  - rewrite <- Hrs0. exact (recv_run_reads _ _ _ _ _ _ _ Hinv Hrun).
+Qed.
+
+(* once a read has reported the peer's reset, every later read of every program reports that reset again - never the
+   end of the stream, never another class, whatever Quinn would answer (it is not asked: its answers stay untouched);
+   ids and stops keep working *)
+Lemma reset_is_sticky id r c o :
+  recv_inv id r -> r_reset r = None ->
+  exists r1, poll_data (RFail (QRReset c) :: o) r = (Ready (Err (HStreamTerminated c)), r1, o) /\
+    recv_inv id r1 /\
+    forall ops o2 tr r2 o3, recv_run ops r1 o2 = (tr, r2, o3) ->
+      Forall (fun ev => fst ev = OPollData -> snd ev = RRData (Ready (Err (HStreamTerminated c)))) tr /\
+      Forall (fun ev => fst ev = ORecvId -> snd ev = RRId (Ok id)) tr /\
+      o3 = o2 /\ r_reset r2 = Some c.
+Proof.
+  intros Hinv Hr. pose proof Hinv as (Hid & (q & Hq & Hqid) & Hps & Hrs).
+  assert (Hstep : recv_step OPollData r (RFail (QRReset c) :: o)
+                  = (RRData (Ready (Err (HStreamTerminated c))), ready_state r q (RFail (QRReset c)), o)).
+  { cbn [recv_step]. rewrite (poll_data_char r q _ Hq Hr). reflexivity. }
+  pose proof (recv_step_inv _ _ _ _ _ _ _ Hinv Hstep) as Hinv1.
+  set (r1 := ready_state r q (RFail (QRReset c))) in *.
+  exists r1.
+  split; [rewrite (poll_data_char r q _ Hq Hr); reflexivity|]. split; [exact Hinv1|].
+  assert (Hr1 : r_reset r1 = Some c) by reflexivity.
+  clearbody r1. clear Hstep. intros ops.
+  revert r1 Hinv1 Hr1. induction ops as [|op ops IH]; intros r1 Hinv1 Hr1 o2 tr r2 o3 H.
+  - cbn in H. inversion H; subst. repeat split; try constructor. exact Hr1.
+  - cbn [recv_run] in H. destruct (recv_step op r1 o2) as [[x r1'] o1] eqn:HS.
+    destruct (recv_run ops r1' o1) as [[tr1 r2'] o2'] eqn:HR. inversion H; subst tr r2 o3. clear H.
+    pose proof (recv_step_inv _ _ _ _ _ _ _ Hinv1 HS) as Hinv2.
+    assert (Hk : r_reset r1' = Some c /\ o1 = o2 /\ (op = OPollData -> x = RRData (Ready (Err (HStreamTerminated c))))).
+    { destruct (is_poll op) eqn:Hop.
+      - destruct op; try discriminate. cbn [recv_step] in HS. rewrite (poll_data_reset r1 c o2 Hr1) in HS.
+        inversion HS; subst. repeat split; auto.
+      - destruct (recv_step_keeps_reset _ _ _ _ _ _ Hop HS) as (E1 & E2 & _).
+        split; [congruence|split; [exact E2|]]. intros E. subst op. discriminate. }
+    destruct Hk as (K1 & K2 & K3). subst o1.
+    destruct (IH _ Hinv2 K1 _ _ _ _ HR) as (G1 & G2 & G3 & G4).
+    split; [constructor; [exact K3|exact G1]|]. split; [|split; [exact G3|exact G4]].
+    constructor; [|exact G2]. cbn [fst snd]. intros E. subst op. exact (recv_step_id _ _ _ _ _ _ Hinv1 HS).
 Qed.
 
 (* ---------------------------------------------------------------------- properties of the abstract stop delivery *)
@@ -784,7 +954,7 @@ Qed.
 
 (* the scenario of the property text: a stop issued while the read future owns the stream *)
 Lemma deferred_stop_once r q c :
-  underlying r = Some q -> r_stream r = None -> c <= varint_max ->
+  underlying r = Some q -> r_stream r = None -> r_reset r = None -> c <= varint_max ->
   exists r1, stop_sending c r = (Ok tt, r1) /\
     underlying r1 = Some q /\ r_stream r1 = None /\ r_pending_stop r1 = Some c /\
     (* the read stays pending: nothing is delivered, the stop stays held *)
@@ -794,13 +964,13 @@ Lemma deferred_stop_once r q c :
     (forall a o, a <> RBlocked -> exists r2, poll_data (a :: o) r1 = (Ready (read_result a), r2, o) /\
         r_stream r2 = Some (q_stop c q) /\ r_pending_stop r2 = None).
 Proof.
-  intros Hq Hs Hc. unfold stop_sending. destruct (N.ltb_spec varint_max c); [lia|].
+  intros Hq Hs Hrs Hc. unfold stop_sending. destruct (N.ltb_spec varint_max c); [lia|].
   rewrite Hs, fact_defers. eexists. split; [reflexivity|].
-  assert (Hq1 : underlying {| r_id := r_id r; r_stream := None; r_fut := r_fut r; r_pending_stop := Some c |} = Some q).
+  assert (Hq1 : underlying {| r_id := r_id r; r_stream := None; r_fut := r_fut r; r_pending_stop := Some c; r_reset := r_reset r |} = Some q).
   { unfold underlying in *. rewrite Hs in Hq. cbn. exact Hq. }
   split; [exact Hq1|]. split; [reflexivity|]. split; [reflexivity|]. split.
-  - intros o. rewrite (poll_data_char _ q _ Hq1). eexists. split; [reflexivity|]. repeat split.
-  - intros a o Ha. rewrite (poll_data_char _ q _ Hq1). destruct a; try congruence; eexists; split; reflexivity || (split; reflexivity).
+  - intros o. rewrite (poll_data_char _ q _ Hq1 Hrs). eexists. split; [reflexivity|]. repeat split.
+  - intros a o Ha. rewrite (poll_data_char _ q _ Hq1 Hrs). destruct a; try congruence; eexists; split; reflexivity || (split; reflexivity).
 Qed.
 
 (* the state the repaired recv_id was written for is reachable: after a pending poll the stream is
@@ -810,41 +980,44 @@ Lemma recv_id_while_read_pending id o :
   exists r r1, recv_new (qrecv_new id) = Ok r /\ poll_data (RBlocked :: o) r = (Pending, r1, o) /\
     r_stream r1 = None /\ recv_id r1 = Ok id.
 Proof.
-  intros Hid. destruct (recv_new_inv id Hid) as (r & Hr & Hinv & Hs).
+  intros Hid. destruct (recv_new_inv id Hid) as (r & Hr & Hinv & Hs & Hrs).
   pose proof Hinv as (_ & (q & Hq & _) & _).
-  exists r. eexists. split; [exact Hr|]. rewrite (poll_data_char r q _ Hq). split; [reflexivity|]. split; [reflexivity|].
+  exists r. eexists. split; [exact Hr|]. rewrite (poll_data_char r q _ Hq Hrs). split; [reflexivity|]. split; [reflexivity|].
   unfold recv_id, recv_id_with. rewrite fact_cached. cbn [blocked_state r_id]. destruct Hinv as (H1 & _ & _). congruence.
 Qed.
 
 (* after a FAILED read the stream is back in `self.stream`: it can be polled again, asked for its id and stopped
    (at once, nothing is parked), whatever Quinn answers next *)
 Lemma after_failed_read id r e o :
-  recv_inv id r -> e <> QRIllegalOrderedRead ->
+  recv_inv id r -> r_reset r = None -> e <> QRIllegalOrderedRead ->
   exists cls r2 q2,
     poll_data (RFail e :: o) r = (Ready (Err cls), r2, o) /\ spec_read_class e = Some cls /\
     r_stream r2 = Some q2 /\ r_pending_stop r2 = None /\ recv_inv id r2 /\ recv_id r2 = Ok id /\
     (forall c, c <= varint_max ->
-       stop_sending c r2 = (Ok tt, {| r_id := r_id r2; r_stream := Some (q_stop c q2); r_fut := r_fut r2; r_pending_stop := None |})) /\
+       stop_sending c r2 = (Ok tt, {| r_id := r_id r2; r_stream := Some (q_stop c q2); r_fut := r_fut r2; r_pending_stop := None;
+                                      r_reset := r_reset r2 |})) /\
     (forall a o', a <> RFail QRIllegalOrderedRead ->
        exists x r3 o3, poll_data (a :: o') r2 = (x, r3, o3) /\ poll_not_panic x /\ recv_inv id r3 /\ recv_id r3 = Ok id).
 Proof.
-  intros Hinv He. pose proof Hinv as (Hid & (q & Hq & Hqid) & Hps).
+  intros Hinv Hrs0 He. pose proof Hinv as (Hid & (q & Hq & Hqid) & Hps & Hrs).
   destruct (spec_read_class e) as [cls|] eqn:Hc; [|apply read_class_none_iff in Hc; contradiction].
-  assert (Hstep : recv_step OPollData r (RFail e :: o) = (RRData (Ready (Err cls)), ready_state r q, o)).
-  { cbn [recv_step]. rewrite (poll_data_char r q _ Hq). cbn [read_result]. rewrite convert_read_error_spec, Hc. reflexivity. }
+  assert (Hstep : recv_step OPollData r (RFail e :: o) = (RRData (Ready (Err cls)), ready_state r q (RFail e), o)).
+  { cbn [recv_step]. rewrite (poll_data_char r q _ Hq Hrs0). cbn [read_result]. rewrite convert_read_error_spec, Hc. reflexivity. }
   pose proof (recv_step_inv _ _ _ _ _ _ _ Hinv Hstep) as Hinv2.
-  exists cls, (ready_state r q). eexists.
-  split; [rewrite (poll_data_char r q _ Hq); cbn [read_result]; rewrite convert_read_error_spec, Hc; reflexivity|].
+  exists cls, (ready_state r q (RFail e)). eexists.
+  split; [rewrite (poll_data_char r q _ Hq Hrs0); cbn [read_result]; rewrite convert_read_error_spec, Hc; reflexivity|].
   split; [reflexivity|]. split; [reflexivity|]. split; [reflexivity|]. split; [exact Hinv2|].
   split; [apply recv_id_ok; exact Hinv2|]. split.
   - intros c Hcle. unfold stop_sending. destruct (N.ltb_spec varint_max c); [lia|]. reflexivity.
-  - intros a o' Ha. destruct (recv_step OPollData (ready_state r q) (a :: o')) as [[x r3] o3] eqn:HS.
+  - intros a o' Ha. destruct (recv_step OPollData (ready_state r q (RFail e)) (a :: o')) as [[x r3] o3] eqn:HS.
     pose proof (recv_step_inv _ _ _ _ _ _ _ Hinv2 HS) as Hinv3.
-    cbn [recv_step] in HS. destruct (poll_data (a :: o') (ready_state r q)) as [[x0 r0] o0] eqn:HP.
+    cbn [recv_step] in HS. destruct (poll_data (a :: o') (ready_state r q (RFail e))) as [[x0 r0] o0] eqn:HP.
     inversion HS; subst. exists x0, r3, o3. split; [reflexivity|]. split; [|split; [exact Hinv3|apply recv_id_ok; exact Hinv3]].
-    destruct Hinv2 as (_ & (q2' & Hq2' & _) & _). rewrite (poll_data_char _ q2' _ Hq2') in HP.
-    destruct a as [b| | |e']; inversion HP; subst; cbn; auto.
-    apply (read_result_not_panic (RFail e')); [discriminate|exact Ha].
+    destruct (r_reset (ready_state r q (RFail e))) as [c|] eqn:Hr2.
+    + rewrite (poll_data_reset _ c _ Hr2) in HP. inversion HP; subst. exact I.
+    + destruct Hinv2 as (_ & (q2' & Hq2' & _) & _). rewrite (poll_data_char _ q2' _ Hq2' Hr2) in HP.
+      destruct a as [b| | |e']; inversion HP; subst; cbn; auto.
+      apply (read_result_not_panic (RFail e')); [discriminate|exact Ha].
 Qed.
 
 (* ====================================================================== BidiStream, open / accept *)
@@ -890,10 +1063,11 @@ Qed.
 Lemma finish_hands_over_everything ops id o tr s' o' :
   send_run (ops ++ [OPollFinish]) (send_new (qsend_new id)) o = (tr, s', o') ->
   (exists tr0, tr = tr0 ++ [(OPollFinish, SRPoll (Ready (Ok tt)))]) ->
+  Forall no_write_failure tr ->
   s_writing s' = None /\ qs_finished (s_q s') = true /\
   qs_log (s_q s') = spec_handed (map abs_send tr).
 Proof.
-  intros H (tr0 & Htr).
+  intros H (tr0 & Htr) Hnf.
   assert (Hsplit : forall ops1 ops2 s o,
     send_run (ops1 ++ ops2) s o =
       let '(t1, s1, o1) := send_run ops1 s o in let '(t2, s2, o2) := send_run ops2 s1 o1 in (t1 ++ t2, s2, o2)).
@@ -901,12 +1075,12 @@ Proof.
     - cbn. destruct (send_run ops2 s o) as [[t2 s2] o2]. reflexivity.
     - cbn [app send_run]. destruct (send_step op s o) as [[r s1] o1]. rewrite IH.
       destruct (send_run ops1 s1 o1) as [[t1 s2] o2]. destruct (send_run ops2 s2 o2) as [[t2 s3] o3]. reflexivity. }
-  pose proof (send_run_exact _ _ _ _ _ _ H) as (E1 & _ & _ & _).
+  pose proof (send_run_exact _ _ _ _ _ _ H) as (E1 & _ & _ & _). specialize (E1 Hnf).
   rewrite Hsplit in H. destruct (send_run ops (send_new (qsend_new id)) o) as [[t1 s1] o1] eqn:H1.
   cbn [send_run send_step] in H. destruct (poll_finish o1 s1) as [[r2 s2] o2] eqn:HP.
   injection H as Htr' Hs' Ho'. subst s2 o2.
   rewrite Htr in Htr'. apply app_inj_tail in Htr'. destruct Htr' as [_ Heq]. injection Heq as Hr. subst r2.
-  destruct (poll_finish_exact _ _ _ _ _ HP) as (_ & _ & _ & E4 & _).
+  destruct (poll_finish_exact _ _ _ _ _ HP) as (_ & _ & _ & E4 & _ & _).
   destruct (E4 eq_refl) as (Hw & Hf). split; [exact Hw|]. split; [exact Hf|].
   rewrite Hw in E1. cbn [view_opt send_new s_q s_writing qsend_new qs_log app] in E1. rewrite app_nil_r in E1. exact E1.
 Qed.
@@ -935,31 +1109,214 @@ Proof.
   unfold reset_code, spec_reset_code. rewrite fact_saturates. destruct (N.leb_spec c varint_max); f_equal; lia.
 Qed.
 
+(* ====================================================================== after a write error (Quinn's failures are final) *)
+
+Definition only_fails (qe : qwrite_err) (o : list wanswer) : Prop := Forall (fun a => a = WFail qe) o.
+
+Lemma only_fails_final qe o : only_fails qe o -> fail_is_final o.
+Proof. intros H. destruct o as [|a r]; [exact I|]. inversion H; subst. exact H3. Qed.
+
+Lemma fail_is_final_suffix used : forall o', fail_is_final (used ++ o') -> fail_is_final o'.
+Proof.
+  induction used as [|a used IH]; intros o' H; [exact H|]. cbn [app fail_is_final] in H.
+  destruct a as [k| |e]; try (apply IH; exact H).
+  apply Forall_app in H. apply (only_fails_final e). exact (proj2 H).
+Qed.
+
+Lemma fail_is_final_after used : forall qe o', fail_is_final (used ++ WFail qe :: o') -> only_fails qe o'.
+Proof.
+  induction used as [|a used IH]; intros qe o' H.
+  - exact H.
+  - cbn [app fail_is_final] in H. destruct a as [k| |e]; try (apply IH; exact H).
+    apply Forall_app in H. destruct H as [_ H]. inversion H as [|? ? Hq Hr]; subst. inversion Hq; subst. exact Hr.
+Qed.
+
+Lemma only_fails_suffix qe used o' : only_fails qe (used ++ o') -> only_fails qe o'.
+Proof. intros H. apply Forall_app in H. exact (proj2 H). Qed.
+
+(* what a poll can report while Quinn only fails with qe (or has no answer left) *)
+Definition sticky_ev (e : h3_stream_err) (ev : send_op * send_result) : Prop :=
+  match ev with
+  | (OPollReady, SRPoll (Ready (Err e'))) => e' = e
+  | (OPollFinish, SRPoll (Ready (Err e'))) => e' = e \/ e' = HUnknownFinish
+  | (OPollSend _, SRSend (Ready (Err e'))) => e' = e
+  | (OSendData _, SRUnit (Err e')) => e' = spec_refusal
+  | _ => True
+  end.
+
+Lemma write_loop_only_fails qe o : only_fails qe o -> forall q data r q' w' o',
+  write_loop o q data = (r, q', w', o') ->
+  q' = q /\ (forall e, r = Ready (Err e) -> e = spec_write_class qe).
+Proof.
+  intros Ho q data r q' w' o' H. destruct o as [|a o1].
+  - cbn [write_loop] in H. destruct (wb_has_remaining data); inversion H; subst; split; auto; intros e C; discriminate.
+  - inversion Ho as [|? ? Ha _]; subst a. cbn [write_loop] in H. destruct (wb_has_remaining data).
+    + rewrite convert_write_error_spec in H. cbn [of_conv] in H. inversion H; subst. split; [reflexivity|].
+      intros e C. inversion C. reflexivity.
+    + inversion H; subst. split; auto. intros e C. discriminate.
+Qed.
+
+Lemma send_step_only_fails qe op s o r s' o' :
+  only_fails qe o -> send_step op s o = (r, s', o') ->
+  qs_log (s_q s') = qs_log (s_q s) /\ only_fails qe o' /\ sticky_ev (spec_write_class qe) (op, r).
+Proof.
+  intros Ho H.
+  assert (Hsuf : forall used, o = used ++ o' -> only_fails qe o') by (intros used E; subst o; exact (only_fails_suffix _ _ _ Ho)).
+  destruct op as [b| | |c| |buf]; cbn [send_step] in H.
+  - unfold send_data, send_data_with in H. rewrite fact_guard, fact_refusal in H.
+    destruct (s_writing s); inversion H; subst; repeat split; auto.
+  - destruct (poll_ready o s) as [[r0 s0] o0] eqn:HP. inversion H; subst.
+    destruct (poll_ready_exact _ _ _ _ _ HP) as (_ & _ & _ & _ & _ & _ & (used & Hu) & _ & _). pose proof (Hsuf _ Hu) as Ho'. clear Hu Hsuf.
+    unfold poll_ready in HP. destruct (s_writing s) as [data|].
+    + destruct (write_loop o (s_q s) data) as [[[r1 q1] w1] o1] eqn:HL. inversion HP; subst.
+      destruct (write_loop_only_fails qe _ Ho _ _ _ _ _ _ HL) as (Hq & He). cbn [s_q]. subst q1.
+      split; [reflexivity|]. split; [exact Ho'|]. cbn [sticky_ev]. destruct r0 as [[[]|e|p]|]; auto.
+    + inversion HP; subst. repeat split; auto.
+  - destruct (poll_finish o s) as [[r0 s0] o0] eqn:HP. inversion H; subst.
+    destruct (poll_finish_exact _ _ _ _ _ HP) as (_ & _ & _ & _ & (used & Hu) & _). pose proof (Hsuf _ Hu) as Ho'. clear Hu Hsuf.
+    unfold poll_finish, poll_finish_with in HP. rewrite fact_finish_drains in HP.
+    assert (HQ : forall s1 r2 s2, q_finish s1 = (r2, s2) ->
+              qs_log (s_q s2) = qs_log (s_q s1) /\ (forall e, r2 = Ready (Err e) -> e = HUnknownFinish)).
+    { intros s1 r2 s2 HF. unfold q_finish in HF.
+      destruct (qs_finished (s_q s1) || match qs_reset (s_q s1) with Some _ => true | None => false end);
+        inversion HF; subst; split; auto; intros e C; inversion C; reflexivity || discriminate. }
+    destruct (s_writing s) as [data|] eqn:Hw.
+    + destruct (poll_ready o s) as [[r1 s1] o1] eqn:HR.
+      assert (HR' := HR). unfold poll_ready in HR'. rewrite Hw in HR'.
+      destruct (write_loop o (s_q s) data) as [[[r3 q3] w3] o3] eqn:HL. inversion HR'; subst r3 s1 o3.
+      destruct (write_loop_only_fails qe _ Ho _ _ _ _ _ _ HL) as (Hq & He). subst q3.
+      destruct r1 as [[[]|e|p]|].
+      * destruct (q_finish _) as [r2 s2] eqn:HF. inversion HP; subst. destruct (HQ _ _ _ HF) as (F1 & F2).
+        split; [rewrite F1; reflexivity|]. split; [exact Ho'|]. cbn [sticky_ev]. destruct r0 as [[[]|e|p]|]; auto.
+      * inversion HP; subst. cbn [s_q]. split; [reflexivity|]. split; [exact Ho'|]. cbn [sticky_ev]. left. apply He. reflexivity.
+      * inversion HP; subst. cbn [s_q]. split; [reflexivity|]. split; [exact Ho'|]. exact I.
+      * inversion HP; subst. cbn [s_q]. split; [reflexivity|]. split; [exact Ho'|]. exact I.
+    + destruct (q_finish s) as [r2 s2] eqn:HF. inversion HP; subst. destruct (HQ _ _ _ HF) as (F1 & F2).
+      split; [exact F1|]. split; [exact Ho|]. cbn [sticky_ev]. destruct r0 as [[[]|e|p]|]; auto.
+  - unfold send_reset in H. destruct (reset_code c); inversion H; subst; repeat split; auto.
+  - inversion H; subst. repeat split; auto.
+  - destruct (poll_send o buf s) as [[[r0 s0] b0] o0] eqn:HP. inversion H; subst.
+    unfold poll_send, poll_send_with in HP.
+    destruct (match s_writing s with Some _ => poll_send_guard | None => false end).
+    + inversion HP; subst. repeat split; auto.
+    + destruct o as [|a o1].
+      * inversion HP; subst. repeat split; auto.
+      * inversion Ho as [|? ? Ha Hr]; subst a. rewrite convert_write_error_spec in HP. cbn [of_conv] in HP.
+        inversion HP; subst. split; [reflexivity|]. split; [exact Hr|]. reflexivity.
+Qed.
+
+Lemma send_run_only_fails qe ops : forall s o tr s' o',
+  only_fails qe o -> send_run ops s o = (tr, s', o') ->
+  qs_log (s_q s') = qs_log (s_q s) /\ only_fails qe o' /\ Forall (sticky_ev (spec_write_class qe)) tr.
+Proof.
+  induction ops as [|op ops IH]; intros s o tr s' o' Ho H.
+  - cbn in H. inversion H; subst. repeat split; auto.
+  - cbn [send_run] in H. destruct (send_step op s o) as [[r s1] o1] eqn:HS.
+    destruct (send_run ops s1 o1) as [[tr1 s2] o2] eqn:HR. inversion H; subst.
+    destruct (send_step_only_fails _ _ _ _ _ _ _ Ho HS) as (E1 & E2 & E3).
+    destruct (IH _ _ _ _ _ E2 HR) as (F1 & F2 & F3).
+    split; [congruence|]. split; [exact F2|]. constructor; assumption.
+Qed.
+
+(* (i) in EVERY reachable state, errors included, given that Quinn's write failures are final: what Quinn has been
+   handed is a prefix of the concatenation of the buffers send_data accepted, in order - nothing duplicated, nothing
+   interleaved, nothing from a refused buffer; and while no write has failed it is exact (with what waits in `writing`) *)
+Lemma send_run_prefix ops : forall s o tr s' o' H0,
+  fail_is_final o ->
+  (qs_log (s_q s) ++ view_opt (s_writing s) = H0 \/ exists qe rest, only_fails qe o /\ qs_log (s_q s) ++ rest = H0) ->
+  send_run ops s o = (tr, s', o') ->
+  (qs_log (s_q s') ++ view_opt (s_writing s') = H0 ++ spec_handed (map abs_send tr) \/
+   exists qe rest, only_fails qe o' /\ qs_log (s_q s') ++ rest = H0 ++ spec_handed (map abs_send tr)).
+Proof.
+  induction ops as [|op ops IH]; intros s o tr s' o' H0 Hfin HJ H.
+  - cbn in H. inversion H; subst. cbn [map spec_handed]. rewrite app_nil_r. exact HJ.
+  - cbn [send_run] in H. destruct (send_step op s o) as [[r s1] o1] eqn:HS.
+    destruct (send_run ops s1 o1) as [[tr1 s2] o2] eqn:HR. inversion H; subst tr s' o'. clear H.
+    cbn [map]. change (abs_send (op, r) :: map abs_send tr1) with ([abs_send (op, r)] ++ map abs_send tr1).
+    rewrite spec_handed_app, app_assoc.
+    destruct (send_step_exact _ _ _ _ _ _ HS) as (E1 & _ & _ & (used & Hu)).
+    assert (Hfin1 : fail_is_final o1) by (subst o; exact (fail_is_final_suffix _ _ Hfin)).
+    apply (IH _ _ _ _ _ _ Hfin1) with (2 := HR). clear IH HR.
+    destruct HJ as [HJ|(qe & rest & Ho & HJ)].
+    + (* exact so far *)
+      assert (Hdec : no_write_failure (op, r) \/
+                (exists e, (op = OPollReady \/ op = OPollFinish) /\ poll_ready o s = (Ready (Err e), s1, o1))).
+      { destruct op as [b| | |c| |buf]; try (left; exact I); cbn [send_step] in HS.
+        - destruct (poll_ready o s) as [[r0 s0] o0] eqn:HP. inversion HS; subst. cbn [no_write_failure].
+          destruct r0 as [[[]|e|p]|]; try (left; intros C; exact C). right. exists e. auto.
+        - destruct (poll_finish o s) as [[r0 s0] o0] eqn:HP. inversion HS; subst. cbn [no_write_failure].
+          destruct (poll_finish_exact _ _ _ _ _ HP) as (_ & _ & _ & _ & _ & EW).
+          destruct r0 as [[[]|e|p]|]; try (left; left; intros C; exact C).
+          destruct e; try (right; destruct (EW I) as (e' & He' & HP'); [discriminate|]; inversion He'; subst; eexists; split; [right; reflexivity|exact HP']).
+          left. right. reflexivity. }
+      destruct Hdec as [Hnf|(e & Hop & HP)].
+      * left. rewrite (E1 Hnf), HJ. reflexivity.
+      * right. destruct (poll_ready_error_source _ _ _ _ _ HP) as (qe & used' & Hu' & _).
+        destruct (poll_ready_exact _ _ _ _ _ HP) as (_ & _ & _ & _ & _ & _ & _ & (rest & EP) & EF).
+        exists qe, rest. split; [rewrite Hu' in Hfin; exact (fail_is_final_after _ _ _ Hfin)|].
+        rewrite (EF I) in EP. cbn [view_opt app] in EP. rewrite EP, HJ.
+        (* the failing poll adds nothing to what was handed over *)
+        assert (Hev : spec_handed [abs_send (op, r)] = []).
+        { destruct Hop; subst op; cbn [send_step] in HS.
+          - destruct (poll_ready o s) as [[? ?] ?]; inversion HS; reflexivity.
+          - destruct (poll_finish o s) as [[? ?] ?]; inversion HS; reflexivity. }
+        rewrite Hev, app_nil_r. reflexivity.
+    + (* after a failure: Quinn takes nothing more *)
+      right. destruct (send_step_only_fails _ _ _ _ _ _ _ Ho HS) as (L1 & L2 & _).
+      exists qe, (rest ++ spec_handed [abs_send (op, r)]). split; [exact L2|]. rewrite L1, app_assoc, HJ. reflexivity.
+Qed.
+
 (* ====================================================================== statements as pinned in Properties/C17.v *)
 
 Lemma write_exact_new :
   forall ops id o tr s' o', id <= varint_max ->
     send_run ops (send_new (qsend_new id)) o = (tr, s', o') ->
-    qs_log (s_q s') ++ view_opt (s_writing s') = spec_handed (map abs_send tr) /\
+    (Forall no_write_failure tr -> qs_log (s_q s') ++ view_opt (s_writing s') = spec_handed (map abs_send tr)) /\
     Forall send_ev_ok tr /\ map fst tr = ops.
 Proof.
   intros ops id o tr s' o' Hid H. destruct (send_run_exact _ _ _ _ _ _ H) as (E1 & _ & E3 & E4).
   split; [exact E1|]. split; [apply E3; exact Hid|exact E4].
 Qed.
 
+(* Quinn refuses a write (the peer stopped the stream, the connection is gone, the stream was finished): poll_ready
+   reports the error in its class, the rest of the buffer is given up (`writing = None`), what Quinn took before stays
+   and nothing else was added; a later send_data is accepted again (and fails the same way when Quinn keeps
+   refusing) instead of being refused as a misuse of the send half *)
+Lemma write_failure_gives_up :
+  forall o s e s' o', poll_ready o s = (Ready (Err e), s', o') ->
+    s_writing s' = None /\
+    (exists rest, qs_log (s_q s') ++ rest = qs_log (s_q s) ++ view_opt (s_writing s)) /\
+    (exists qe used, o = used ++ WFail qe :: o' /\ e = spec_write_class qe) /\
+    (forall b, send_data b s' = (Ok tt, {| s_q := s_q s'; s_writing := Some b |})) /\
+    (forall b qe2 o2, wb_has_remaining b = true ->
+       fst (fst (poll_ready (WFail qe2 :: o2) {| s_q := s_q s'; s_writing := Some b |})) = Ready (Err (spec_write_class qe2))).
+Proof.
+  intros o s e s' o' H.
+  destruct (poll_ready_exact _ _ _ _ _ H) as (_ & _ & _ & _ & _ & _ & _ & (rest & EP) & EF).
+  assert (Hw : s_writing s' = None) by (apply EF; exact I).
+  split; [exact Hw|]. split; [exists rest; rewrite Hw in EP; exact EP|]. split.
+  - exact (poll_ready_error_source _ _ _ _ _ H).
+  - split.
+    + intros b. apply send_data_accepted. exact Hw.
+    + intros b qe2 o2 Hrem.
+      unfold poll_ready. cbn [s_writing s_q write_loop]. rewrite Hrem. rewrite convert_write_error_spec. reflexivity.
+Qed.
+
 Lemma write_complete_new :
   forall ops id o tr s' o',
     send_run (ops ++ [OPollReady]) (send_new (qsend_new id)) o = (tr, s', o') ->
     (exists tr0, tr = tr0 ++ [(OPollReady, SRPoll (Ready (Ok tt)))]) ->
+    Forall no_write_failure tr ->
     s_writing s' = None /\ qs_log (s_q s') = spec_handed (map abs_send tr).
-Proof. intros ops id o tr s' o' H1 H2. exact (send_run_complete _ _ _ _ _ _ H1 H2). Qed.
+Proof. intros ops id o tr s' o' H1 H2 H3. exact (send_run_complete _ _ _ _ _ _ H1 H2 H3). Qed.
 
 Lemma poll_ready_any_split :
   forall o s r s' o', poll_ready o s = (r, s', o') ->
-    qs_log (s_q s') ++ view_opt (s_writing s') = qs_log (s_q s) ++ view_opt (s_writing s) /\
+    (~ poll_failed r -> qs_log (s_q s') ++ view_opt (s_writing s') = qs_log (s_q s) ++ view_opt (s_writing s)) /\
+    (exists rest, qs_log (s_q s') ++ view_opt (s_writing s') ++ rest = qs_log (s_q s) ++ view_opt (s_writing s)) /\
     poll_not_panic r /\ (r = Ready (Ok tt) -> s_writing s' = None) /\ (exists used, o = used ++ o').
 Proof.
-  intros o s r s' o' H. destruct (poll_ready_exact _ _ _ _ _ H) as (E1 & _ & _ & _ & E5 & E6 & E7). auto.
+  intros o s r s' o' H. destruct (poll_ready_exact _ _ _ _ _ H) as (E1 & _ & _ & _ & E5 & E6 & E7 & E8 & _). auto.
 Qed.
 
 Lemma write_progress :
@@ -974,4 +1331,34 @@ Lemma send_id_constant_new :
 Proof.
   intros ops id o tr s' o' Hid H.
   exact (send_ids_constant ops (send_new (qsend_new id)) o tr s' o' Hid H).
+Qed.
+
+Lemma handed_is_prefix :
+  forall ops id o tr s' o', fail_is_final o ->
+    send_run ops (send_new (qsend_new id)) o = (tr, s', o') ->
+    exists rest, qs_log (s_q s') ++ rest = spec_handed (map abs_send tr) /\
+      (Forall no_write_failure tr -> rest = view_opt (s_writing s')).
+Proof.
+  intros ops id o tr s' o' Hfin H.
+  destruct (send_run_exact _ _ _ _ _ _ H) as (E1 & _ & _ & _).
+  assert (H0 : qs_log (s_q (send_new (qsend_new id))) ++ view_opt (s_writing (send_new (qsend_new id))) = []
+               \/ exists qe rest, only_fails qe o /\ qs_log (s_q (send_new (qsend_new id))) ++ rest = []) by (left; reflexivity).
+  destruct (send_run_prefix ops _ _ _ _ _ [] Hfin H0 H) as [HL|(qe & rest & _ & HR)].
+  - exists (view_opt (s_writing s')). split; [exact HL|]. intros _. reflexivity.
+  - exists rest. split; [exact HR|]. intros Hnf. specialize (E1 Hnf). cbn [send_new s_q s_writing qsend_new qs_log view_opt app] in E1.
+    cbn [app] in HR. rewrite <- E1 in HR. apply app_inv_head in HR. exact HR.
+Qed.
+
+Lemma write_error_is_sticky :
+  forall o s e s' o', fail_is_final o -> poll_ready o s = (Ready (Err e), s', o') ->
+    s_writing s' = None /\
+    (forall b, send_data b s' = (Ok tt, {| s_q := s_q s'; s_writing := Some b |})) /\
+    forall ops tr s2 o2, send_run ops s' o' = (tr, s2, o2) ->
+      qs_log (s_q s2) = qs_log (s_q s') /\ Forall (sticky_ev e) tr.
+Proof.
+  intros o s e s' o' Hfin H.
+  destruct (write_failure_gives_up _ _ _ _ _ H) as (Hw & _ & (qe & used & Hu & He) & Hacc & _).
+  split; [exact Hw|]. split; [exact Hacc|].
+  intros ops tr s2 o2 HR. rewrite Hu in Hfin. pose proof (fail_is_final_after _ _ _ Hfin) as Ho.
+  destruct (send_run_only_fails _ _ _ _ _ _ _ Ho HR) as (F1 & _ & F3). subst e. split; assumption.
 Qed.
